@@ -97,7 +97,7 @@ def get(prog, path):
     return cur
 
 
-RAISE_KINDS = ["expr", "expr", "pysc", "py", "arg", "expr"]
+RAISE_KINDS = ["expr", "expr", "pysc", "py", "arg", "expr", "capnc"]
 UNDEF_NAME = "missing_name_zq"
 
 
@@ -106,6 +106,9 @@ def raise_node(kind):
         return {"t": "py", "code": ["raise Boom('py')"], "oneline": True}
     if kind == "arg":
         return {"t": "expr", "e": "str(boom(Boom))"}
+    if kind == "capnc":
+        # capture() refuses a non-callable before it has set anything up: nothing may be left behind
+        return {"t": "expr", "e": "capture(42)"}
     if kind == "pysc":
         # a plain Python function made caller-aware with runtime.supports_caller: it pushes a caller frame of its own
         return {"t": "expr", "e": "pysc(context)"}
@@ -127,7 +130,8 @@ def plant(prog, rpath, ridx, kind, hpath=None, hidx=None):
         hpath = list(hpath)
         hl = get(p, hpath)
         node = hl[hidx]
-        hl[hidx] = {"t": "try", "body": [node], "handlers": [["(Boom, NameError)", [{"t": "text", "s": H_MARK}]]], "ind": "", "sp": " "}
+        hl[hidx] = {"t": "try", "body": [node], "handlers": [["(Boom, NameError, Exception)" if kind == "capnc" else "(Boom, NameError)",
+                                                              [{"t": "text", "s": H_MARK}]]], "ind": "", "sp": " "}
         # right after the handler: a def that works with and without content is called plainly - `caller` must be restored
         probes = [n for n in p["body"] if n.get("t") == "expr" and n.get("__probe")]
         inside_def = False
